@@ -392,14 +392,14 @@ M('C18', 'uniform-reservoir-numpy-default-rng', (UNI, "                rand_idx 
 M('C18', 'numpy-global-for-slot', (UNI, "                rand_idx = random.randrange(self.size)", "                rand_idx = int(np.random.randint(self.size))"), kind='equivalent')
 
 # ---- C19 ---------------------------------------------------------------------------------------
-M('C19', 'outdated-reservoirs-kept', (TS, "            self._delete_outdated_reservoirs(feature_name, root_node)\n", ""))
+M('C19', 'outdated-reservoirs-kept', (TS, "        self._delete_outdated_reservoirs(feature_name, root_node)\n        data_reservoir[leaf_id].update(x)", "        data_reservoir[leaf_id].update(x)"))
 M('C19', 'reservoir-one-too-large', (TS, "size=self._leaf_reservoir_length, store_targets=False, constant_probability=1.0)", "size=self._leaf_reservoir_length + 1, store_targets=False, constant_probability=1.0)"))
 M('C19', 'default-insertion-probability', (TS, "size=self._leaf_reservoir_length, store_targets=False, constant_probability=1.0)", "size=self._leaf_reservoir_length, store_targets=False)"))
 M('C19', 'imputer-samples-other-leaf', (TI, "            storage = data_reservoir[leaf_id]\n", "            storage = data_reservoir[leaf_id]\n            storage = list(data_reservoir.values())[-1]\n"))
 M('C19', 'imputer-changes-unrequested', (TI, "            for feature_name in feature_subset:\n                if self.use_storage:", "            for feature_name in (self.storage_object.feature_names if len(feature_subset) == 2 else feature_subset):\n                if self.use_storage:"))
 M('C19', 'len-counts-features', (TS, "        self._seen_samples += 1\n", "            self._seen_samples += 1\n"))
 M('C19', 'stores-point-without-target-feature', (TS, "        data_reservoir[leaf_id].update(x)", "        data_reservoir[leaf_id].update(x_i)"))
-M('C19', 'deletes-only-on-every-third-new-leaf', (TS, "            self._delete_outdated_reservoirs(feature_name, root_node)\n", "            if len(data_reservoir) % 3 == 0:\n                self._delete_outdated_reservoirs(feature_name, root_node)\n"))
+M('C19', 'deletes-only-on-every-third-update', (TS, "        self._delete_outdated_reservoirs(feature_name, root_node)\n        data_reservoir[leaf_id].update(x)", "        if self._seen_samples % 3 == 0:\n            self._delete_outdated_reservoirs(feature_name, root_node)\n        data_reservoir[leaf_id].update(x)"))
 M('C19', 'imputer-cat-sample-unobserved', (TI, "        feature_value = random.choices(population=feature_values, weights=feature_weights, k=n_samples)[0]", "        feature_value = random.choices(population=feature_values, weights=feature_weights, k=n_samples)[0] + (0.5 if random.random() < 0.2 else 0)"))
 M('C19', 'imputer-one-prediction-short', (TI, "        for _ in range(n_samples):\n            sampled_values = {}", "        for _ in range(max(n_samples - 1, 1)):\n            sampled_values = {}"))
 M('C19', 'reservoir-stores-copy', (TS, "        data_reservoir[leaf_id].update(x)", "        data_reservoir[leaf_id].update(dict(x))"), kind='equivalent')
@@ -431,3 +431,9 @@ for _p in ('C01', 'C03', 'C17', 'C20', 'C16', 'C04'):
 for _p in ('C02', 'C17', 'C20', 'C04'):
     M(_p, 'pfi-numpy-isclose-on-loss', (PFI, "                pfi[feature] = avg_loss - original_loss\n", "                pfi[feature] = avg_loss - original_loss\n                _ = np.isclose(avg_loss, original_loss)\n"), kind='equivalent')
 M('C05', 'batch-numpy-isfinite-on-loss', (BATCH, "            loss_previous = self._loss_function(y_i, marginal_prediction)\n            features_not_in_s", "            loss_previous = self._loss_function(y_i, marginal_prediction)\n            assert np.isfinite(loss_previous)\n            features_not_in_s"), kind='equivalent')
+M('C19', 'revert-fix-delete-every-update', (TS, """                size=self._leaf_reservoir_length, store_targets=False, constant_probability=1.0)
+        # the adaptive trees also prune / swap subtrees that are not on the path of the current point
+        self._delete_outdated_reservoirs(feature_name, root_node)
+""", """                size=self._leaf_reservoir_length, store_targets=False, constant_probability=1.0)
+            self._delete_outdated_reservoirs(feature_name, root_node)
+"""))
